@@ -25,7 +25,13 @@ def classOf : String → Option ClassId
   | "pos" => some (.int .pos)
   | "space" => some (.list .space)
   | "comma" => some (.list .comma)
-  | s => (strClassOf s).map ClassId.str
+  | s =>
+    match s.splitOn "/" with
+    | ["sock", pn, pd] => do
+      let pn ← pn.toNat?
+      let pd ← pd.toNat?
+      if pd = 0 then none else pure (.sock pn pd)
+    | _ => (strClassOf s).map ClassId.str
 
 def encInt (v : Int) : String := String.ofList (intStr v)
 
